@@ -590,17 +590,26 @@ impl<Db: Database> StorageManager<Db> {
         if self.is_transaction_active() {
             let transaction_records = self.transaction.get_users_states(usernames, flag);
             for (label, value_state) in transaction_records.into_iter() {
-                if let Some((epoch, _)) = data.get(&label) {
-                    // there is an existing DB record, check if we should updated it from the transaction log
-                    if let Some(updated_record) =
-                        Self::compare_db_and_transaction_records(*epoch, value_state, flag)
-                    {
-                        data.insert(label, (*epoch, updated_record.value));
+                if let Some((version, _)) = data.get(&label) {
+                    // there is an existing DB record, check if we should updated it from the transaction log.
+                    // The database only returned the version (and not the epoch) of its record. Since a
+                    // user's versions increase with the epochs, comparing versions is equivalent to
+                    // comparing epochs here.
+                    let take_transaction_value = match flag {
+                        ValueStateRetrievalFlag::SpecificVersion(_)
+                        | ValueStateRetrievalFlag::SpecificEpoch(_) => true,
+                        ValueStateRetrievalFlag::LeqEpoch(_) | ValueStateRetrievalFlag::MaxEpoch => {
+                            value_state.version >= *version
+                        }
+                        ValueStateRetrievalFlag::MinEpoch => value_state.version <= *version,
+                    };
+                    if take_transaction_value {
+                        data.insert(label, (value_state.version, value_state.value));
                     }
                 } else {
                     // there is no db-equivalent record, but there IS a record in the transaction log.
                     // Take the transaction log value
-                    data.insert(label, (value_state.epoch, value_state.value));
+                    data.insert(label, (value_state.version, value_state.value));
                 }
             }
         }
